@@ -153,14 +153,20 @@ CLAIMS["C13"] = {
 }
 
 CLAIMS["C10"] = {
-    "text": "Partial, bounded: VariadicColumnMultiset of the real variadics crate is checked by Kani against a multiset-of-tuples oracle "
-            "(schema (u8,u8), <= 3 inserts from new()): insert always reports true and len counts with multiplicity, iter/into_iter/drain yield "
-            "exactly the inserted tuples, contains agrees with membership, drain leaves an empty reusable collection with no stale tuple, extend "
-            "is repeated insert.",
-    "note": "NOT covered: VariadicHashSet and VariadicCountedHashSet own a hashbrown HashTable (outside CBMC's reach, spiked); a change in those "
-            "two types is not detected. std Vec is trusted.",
-    "technique": "contract-based verification: Kani bounded harness contracts on the real crate against a tuple-multiset oracle",
-    "design": "DESIGN.md §5 C10",
+    "text": "Bounded: (a) VariadicColumnMultiset of the real variadics crate is checked by Kani against a multiset-of-tuples oracle (schema (u8,u8), <= 3 "
+            "inserts from new()): insert always reports true and len counts with multiplicity, iter/into_iter/drain yield exactly the inserted tuples, "
+            "contains agrees with membership, drain leaves an empty reusable collection with no stale tuple, extend is repeated insert. "
+            "(b) VariadicHashSet and VariadicCountedHashSet: variadic_collections.rs is extracted verbatim (whole file, one stated substitution "
+            "crate:: -> variadics::) and compiled against a contract double of hashbrown::hash_table; for <= 3 inserted tuples over a 2 x 2 domain: "
+            "the set's insert reports true exactly for a new tuple, len counts distinct tuples, contains = membership, iter yields every distinct tuple "
+            "once; the counted set's insert always reports true, len counts every insert, contains = membership, the stored multiplicity of every tuple "
+            "is its number of inserts; (thorough) set equality is equality of tuple sets and counted-set equality is multiset equality, whatever the "
+            "insertion order; (thorough) the same two types on the REAL hashbrown table for one tuple.",
+    "note": "NOT covered: iteration and drain of VariadicCountedHashSet (flat_map over a symbolic multiplicity: > 900 s of CBMC even for one tuple), extend / "
+            "FromIterator / into_iter of the two hash-backed sets, GHT users of these collections. Trusted: the hashbrown::hash_table contract double (an "
+            "insertion-ordered list searched with the caller's eq closure; the hash value is ignored), std Vec.",
+    "technique": "contract-based verification: Kani bounded harness contracts on the real collection code (extracted mechanically) against tuple set / multiset oracles, hashbrown by contract",
+    "design": "DESIGN.md §5 C10, §14.4, §14.8",
 }
 
 CLAIMS["C36"] = {
